@@ -76,6 +76,8 @@ class Model:
     # ------------------------------------------------------------------ operation menu
     def ops(self, st, level):
         a = st['a']; n = len(a.atom_types); full = level < self.full_levels
+        if level >= self.depth - 1 and not full:
+            return self.last_level_ops(st)
         out = []
         for fi in range(len(FRAGS)):
             nf = [1, 2, 3, 4, 3][fi]
@@ -112,6 +114,24 @@ class Model:
                     for ra in ((0, 1) if full and ri == 0 else (0,)):
                         out.append(['repl', ri, ra])
         out.append(['copy'])
+        return out
+
+    def last_level_ops(self, st):
+        """covering menu of the last level: one operation of every kind, chosen to hit the emptied-kind / emptied-structure cases"""
+        a = st['a']; n = len(a.atom_types); out = []
+        tbs = [True, False] if st['tabled'] is None else [st['tabled']]
+        for tb in tbs:
+            for fi in (2, 4, 0):
+                if n + [1, 2, 3, 4, 3][fi] <= CAP:
+                    out.append(['ext', fi, [] if not n or fi == 0 else [[0, n - 1]], tb])
+        if n:
+            out += [['del', [0]], ['del', list(range(n))], ['pop', None], ['sub', [n - 1, 0]], ['io']]
+            if n > 1:
+                out.append(['del', [n - 1]])
+            if a.cell is not None:
+                out.append(['repl', 0, 0])
+                if 2 * n <= CAP:
+                    out.append(['rep', [2, 1, 1]])
         return out
 
     # ------------------------------------------------------------------ transitions
@@ -270,7 +290,7 @@ def plan(tier, seed):
     return dict(scenarios=scs, exhaustive=True, chunk=1,
                 menus=dict(initial_states=INITS, fragments=FRAGS, replacements=REPL,
                            operations=['extend (fragment x identity map)', 'extend_types + extend twice', 'delete subset', 'pop', 'replicate', 'copy', 'subset', 'replace', 'save_lmpdat+load_lmpdat'],
-                           menu='full menu (every identity map / deletion subset on states of <= 3-4 atoms) on the first %d levels, covering menu on the last' % m.full_levels),
+                           menu='full menu (every identity map / deletion subset on states of <= 3-4 atoms) on the first %d level(s), covering menu below, one operation of every kind on the last level' % m.full_levels),
                 bounds=dict(depth=m.depth, max_atoms=CAP),
                 rule='one scenario per (initial state, first operation); breadth-first search below it; states deduplicated by the complete observable content; non-trivial = distinct states',
                 assumptions=['operation alphabet stays inside the compatibility domain of C06 (fragments and patterns define coefficient tables iff the structure does)',
